@@ -175,7 +175,7 @@ type drv struct {
 	sc   *h.Scenario
 	rec  *h.Rec
 	n    int
-	dupN int // copies sent per dup op
+	dupN int      // copies sent per dup op
 	kind []string // index = tag (1..n)
 	sync bool
 	wd   time.Duration
@@ -346,10 +346,10 @@ func (d *drv) call(tag int) {
 	ctx := d.ctxs[tag]
 	d.rec.Log("CallStart", "tag", tag, "kind", kind, "pre", ctx.Err() != nil)
 	var (
-		err   error
-		rid   = -1
-		st    string
-		xok   = true
+		err      error
+		rid      = -1
+		st       string
+		xok      = true
 		panicked = false
 	)
 	func() {
